@@ -17,7 +17,7 @@ RULE = ('per node kind, seeded random cases built from the quantifier of the pro
         'data are all zero; distinct = distinct (item, parameter dict) tuples')
 ASSUMPTIONS = [
     'dot-product tests at 1e-10 relative to max(|y||Ax|, |By||x|) (float64 round-off of <= 40x40 matrix products)',
-    'directional derivatives by Richardson-extrapolated central differences (O(h^4)), compared at 1e-6 relative to |grad||delta|',
+    'directional derivatives by Richardson-extrapolated central differences (O(h^4)), compared at 1e-6 relative to |grad||delta| plus the float64 resolution floor 64*eps*|f|/h of a central difference (matters only for saturated softmax gradients ~1e-8)',
     'model vs implementation at 1e-9 relative to the largest entry',
     'scipy.fft (fft2/ifft2) enters the DM theorem as the contract ifft = conj-transpose(fft)/N; ndimage.map_coordinates (DM rotation) not covered',
     'GumbelSoftmax noise is frozen by re-seeding the public `rng` attribute before every forward call',
@@ -75,6 +75,12 @@ def richardson(f, h):
     d1 = (f(h) - f(-h)) / (2 * h)
     d2 = (f(h / 2) - f(-h / 2)) / h
     return (4 * d2 - d1) / 3
+
+
+def fd_ok(fd, an, scale, fmag, h):
+    """finite difference vs analytic directional derivative: TOL_FD relative to |grad||delta|, plus the resolution floor of
+    a central difference in float64 (round-off eps*|f|/h) -- a saturated softmax has gradients below that floor"""
+    return abs(fd - an) <= TOL_FD * scale + 64 * np.finfo(float).eps * fmag / h
 
 
 def close(a, b, tol):
@@ -303,7 +309,7 @@ def run_intensity(p):
     scale = max(np.linalg.norm(G) * np.linalg.norm(d), 1e-300)
     n = E.size
     line = f'intbp {n} ' + rw(Ibar) + ' ' + cw(E)
-    return Result(abs(fd - an) <= TOL_FD * scale, f'finite difference {fd:.10g}, Re<Gbar,delta> {an:.10g}', line, G, shp, 'c',
+    return Result(fd_ok(fd, an, scale, abs(f(0.0)) + 1e-300, 1e-3), f'finite difference {fd:.10g}, Re<Gbar,delta> {an:.10g}', line, G, shp, 'c',
                   tag=f'n{min(n, 9)}')
 
 
@@ -324,7 +330,7 @@ def run_phase(p):
     scale = max(np.linalg.norm(pb) * np.linalg.norm(d), 1e-300)
     k = 2 * np.pi / wl / 1e3
     line = f'phasebp {A.size} ' + rw([k]) + ' ' + cw(gbar) + ' ' + cw(wf.data)
-    ok = abs(fd - an) <= TOL_FD * scale and np.isrealobj(pb)
+    ok = fd_ok(fd, an, scale, np.linalg.norm(gbar) * np.linalg.norm(A), 2e-2 * wl) and np.isrealobj(pb)
     return Result(ok, f'finite difference {fd:.10g}, <phase_bar,delta> {an:.10g}', line, pb, shp, 'r', tag=f'wl{wl}')
 
 
@@ -370,10 +376,11 @@ def run_softmax(p):
     g = r.normal(size=out.shape)
     xb = node.backprop(g)
     f = lambda t: float(np.sum(g * fwd(x + t * d)[1]))
-    fd = richardson(f, 1e-3 * (tau if kind == 'gumbel' else 1.0))
+    hh = 1e-3 * (tau if kind == 'gumbel' else 1.0)
+    fd = richardson(f, hh)
     an = float(np.sum(xb * d))
     scale = max(np.linalg.norm(xb) * np.linalg.norm(d), 1e-300)
-    ok = np.shape(xb) == shp and abs(fd - an) <= TOL_FD * scale
+    ok = np.shape(xb) == shp and fd_ok(fd, an, scale, np.linalg.norm(g) * np.linalg.norm(out), hh)
     # model: first variable (first row of the work array)
     est = node.est if enc is not None else node
     s = (est.smax.out if kind == 'gumbel' else est.out).reshape(-1, K)[0]
@@ -457,7 +464,7 @@ def run_cost(p):
     fd = richardson(f, 1e-3)
     an = float(np.sum(g * d))
     scale = max(np.linalg.norm(g) * np.linalg.norm(d), 1e-300)
-    ok = np.shape(g) == shp and abs(fd - an) <= TOL_FD * scale
+    ok = np.shape(g) == shp and fd_ok(fd, an, scale, abs(c0), 1e-3)
     if mask is not None and np.shape(g) == shp:
         ok = ok and bool(np.all(g[~mask] == 0))
     sel = (lambda v: v[mask]) if mask is not None else (lambda v: v.ravel())
@@ -525,9 +532,191 @@ def run_dm(p):
                       f'{"up" if up != 1 else "noup"}/{"shift" if any(p["shift"]) else "noshift"}/{"wfe" if p["wfe"] else "sfe"}')
 
 
+def _fd_vjp(fwd, x, d, g, h):
+    """Richardson directional derivative of z -> <g, fwd(z)> at x along d"""
+    return richardson(lambda t: float(np.sum(g * fwd(x + t * d))), h)
+
+
+def run_history(p):
+    """nodes with mutable public parameters / cached state: build the node, use it, RE-ASSIGN its public attributes
+    (several times), interleave forward calls on other inputs, and require after every change that backprop is the
+    derivative of the LIVE forward at the NEW parameters and the LAST forward input"""
+    P, ft, po, ac, co, op, dmm = _impl()
+    r = _rng(p['seed'])
+    node, steps = p['node'], int(p['steps'])
+    log = []
+
+    def fail(msg):
+        return Result(False, '; '.join(log + [msg]), tag=node)
+
+    if node in ('gumbel', 'encoder-gumbel', 'encoder-softmax', 'softmax'):
+        K = int(p['K'])
+        tau0 = float(p['taus'][0])
+        nseed = p['seed'] + 5
+        est = ac.GumbelSoftmax(tau=tau0) if 'gumbel' in node or node == 'encoder-gumbel' else ac.Softmax()
+        levels = np.array(p['levels'][0], dtype=float) if node.startswith('encoder') else None
+        top = ac.DiscreteEncoder(est, levels) if levels is not None else est
+
+        def live_forward(z):
+            e = top.est if levels is not None else top
+            if isinstance(e, ac.GumbelSoftmax):
+                e.rng = np.random.default_rng(nseed)          # freeze the noise
+            return top.forward(z)
+        last = None
+        for k in range(steps + 1):
+            if k > 0:                                          # re-assign public attributes
+                e = top.est if levels is not None else top
+                if isinstance(e, ac.GumbelSoftmax):
+                    e.tau = float(p['taus'][k % len(p['taus'])])
+                    log.append(f'tau <- {e.tau}')
+                if levels is not None:
+                    top.levels = np.array(p['levels'][k % len(p['levels'])], dtype=float)
+                    log.append(f'levels <- {top.levels.tolist()}')
+                    if p.get('swap_est') and k == steps:
+                        top.est = ac.Softmax() if isinstance(e, ac.GumbelSoftmax) else ac.GumbelSoftmax(tau=0.8)
+                        log.append(f'est <- {type(top.est).__name__}')
+            lead = [int(v) for v in r.integers(1, 4, size=1 + (k % 2))]
+            shp = tuple(lead + [K])
+            other = r.normal(size=tuple([int(v) for v in r.integers(1, 4, size=1 + ((k + 1) % 2))] + [K]))
+            x, d = r.normal(size=shp) * 1.5, r.normal(size=shp)
+            try:
+                live_forward(other)                            # an unrelated forward call in between
+                e = top.est if levels is not None else top
+                tau = e.tau if isinstance(e, ac.GumbelSoftmax) else 1.0
+                out = live_forward(x)
+                g = r.normal(size=out.shape)
+                hh = 1e-3 * min(1.0, tau)
+                fd = _fd_vjp(live_forward, x, d, g, hh)
+                live_forward(x)                                # the forward whose gradient is asked for is the last one
+                xb = top.backprop(g)
+            except Exception as ex:
+                return fail(f'step {k}: raised {type(ex).__name__}: {ex}')
+            if np.shape(xb) != shp:
+                return fail(f'step {k}: backprop shape {np.shape(xb)} for input shape {shp}')
+            an = float(np.sum(xb * d))
+            scale = max(np.linalg.norm(xb) * np.linalg.norm(d), 1e-300)
+            if not fd_ok(fd, an, scale, np.linalg.norm(g) * np.linalg.norm(out), hh):
+                return fail(f'step {k}: finite difference of the live forward {fd:.10g}, <backprop,delta> {an:.10g}')
+            last = (e, g, xb, K, tau)
+        e, g, xb, K, tau = last
+        line = None
+        if levels is None:
+            sm = e.smax if isinstance(e, ac.GumbelSoftmax) else e
+            s_ = sm.out.reshape(-1, K)[0]
+            line = (f'gumbelbp {K} ' + rw([tau]) + ' ' if isinstance(e, ac.GumbelSoftmax) else f'softmaxbp {K} ') + rw(s_) + ' ' + rw(g.reshape(-1, K)[0])
+        return Result(True, '; '.join(log) or 'no change', line, np.asarray(xb).reshape(-1, K)[0] if line else None, (K,) if line else None, 'r', tag=node)
+
+    if node in ('tanh', 'arctan', 'softplus', 'sigmoid'):
+        cls = {'tanh': ac.Tanh, 'arctan': ac.Arctan, 'softplus': ac.Softplus, 'sigmoid': ac.Sigmoid}[node]
+        prm = p['params']
+        nd = cls(a=prm[0][0], x0=prm[0][1], y0=prm[0][2])
+        for k in range(steps + 1):
+            if k > 0:
+                a, x0, y0 = prm[k % len(prm)]
+                which = k % 3
+                if which == 0:
+                    nd.a = a
+                elif which == 1:
+                    nd.x0 = x0
+                else:
+                    nd.a, nd.x0, nd.y0 = a, x0, y0
+                log.append(f'(a,x0,y0) <- {(nd.a, nd.x0, nd.y0)}')
+            x = r.normal(size=(2, 3)) * 1.5 + nd.x0
+            try:
+                nd.forward(r.normal(size=(3,)))
+                b = nd.backprop(x.copy())
+                h = 1e-3 / max(1.0, abs(nd.a))
+                fd = (4 * (nd.forward(x + h / 2) - nd.forward(x - h / 2)) / h - (nd.forward(x + h) - nd.forward(x - h)) / (2 * h)) / 3
+            except Exception as ex:
+                return fail(f'step {k}: raised {type(ex).__name__}: {ex}')
+            okc, det = close(b, fd, TOL_FD * max(1.0, abs(nd.a)))
+            if not okc:
+                return fail(f'step {k}: backprop vs derivative of the live forward: {det}')
+        line = f'act {node} ' + rw([nd.a, nd.x0, nd.y0, x.reshape(-1)[0]])
+        return Result(True, '; '.join(log), line, np.array([nd.forward(x).reshape(-1)[0], np.asarray(b).reshape(-1)[0]]), (2,), 'r', tag=node)
+
+    if node == 'wavefront':
+        wf = P.Wavefront(_cplx(r, (3, 4)), 0.5, 1.0)
+        for k in range(steps + 1):
+            if k > 0:
+                shp = (int(r.integers(1, 5)), int(r.integers(1, 5)))
+                wf.data = _cplx(r, shp)                        # public attribute, read live by intensity and its backprop
+                log.append(f'data <- new {shp} field')
+            E = wf.data
+            Ibar, d = r.normal(size=E.shape), _cplx(r, E.shape)
+            wf.intensity
+            G = wf.intensity_backprop(Ibar).data
+            fd = richardson(lambda t: float(np.sum(Ibar * P.Wavefront(E + t * d, 0.5, 1.0).intensity.data)), 1e-3)
+            an = float(np.real(np.vdot(G, d)))
+            if np.shape(G) != E.shape or not fd_ok(fd, an, max(np.linalg.norm(G) * np.linalg.norm(d), 1e-300), float(np.sum(np.abs(Ibar) * np.abs(E) ** 2)), 1e-3):
+                return fail(f'step {k}: finite difference {fd:.10g}, Re<Gbar,delta> {an:.10g}')
+        return Result(True, '; '.join(log), tag=node)
+
+    if node == 'cost':
+        shp = (3, 4)
+        for k in range(steps + 1):
+            kind = ['bgie', 'mse', 'nll'][k % 3]
+            fn = {'mse': co.mean_square_error, 'bgie': co.bias_and_gain_invariant_error, 'nll': co.negative_loglikelihood}[kind]
+            mask = None if k % 2 == 0 else (r.uniform(size=shp) > 0.3)
+            if mask is not None and mask.sum() < 3:
+                mask[...] = True
+            a = r.uniform(0.15, 0.85, size=shp) if kind == 'nll' else r.uniform(1, 2, size=shp)
+            b = r.uniform(0.15, 0.85, size=shp) if kind == 'nll' else r.uniform(1, 2, size=shp) * 1.3 + 0.2
+            d = r.normal(size=shp)
+            log.append(f'{kind} mask={"none" if mask is None else int(mask.sum())}')
+            try:
+                c0, g = fn(a.copy(), b, mask)
+                fd = richardson(lambda t: float(fn(a + t * d, b, mask)[0]), 1e-3)
+            except Exception as ex:
+                return fail(f'step {k}: raised {type(ex).__name__}: {ex}')
+            an = float(np.sum(g * d))
+            if np.shape(g) != shp or not fd_ok(fd, an, max(np.linalg.norm(g) * np.linalg.norm(d), 1e-300), abs(c0), 1e-3):
+                return fail(f'step {k}: finite difference {fd:.10g}, <grad,delta> {an:.10g}')
+        return Result(True, '; '.join(log), tag=node)
+
+    if node == 'dm':
+        n0, n1 = p['ifn_shape']
+        ifn = _ifn((n0, n1))
+        dm = dmm.DM(ifn, Nout=(n0, n1), Nact=3, sep=(2, 3), shift=tuple(p.get('shift', (0, 0))), upsample=1)
+        wfe = False
+        for k in range(steps + 1):
+            if k > 0:                                          # public parameters read by render and render_backprop
+                ch = p['changes'][(k - 1) % len(p['changes'])]
+                if ch == 'Nout+':
+                    dm.Nout = (dm.Nout[0] + 3, dm.Nout[1] + 4)
+                elif ch == 'Nout-':
+                    dm.Nout = (max(4, dm.Nout[0] - 5), max(4, dm.Nout[1] - 5))
+                elif ch == 'wfe':
+                    wfe = not wfe
+                elif ch == 'up':
+                    dm.upsample = 1.5 if dm.upsample == 1 else 1
+                    inter = (int(n0 * dm.upsample), int(n1 * dm.upsample)) if dm.upsample != 1 else (n0, n1)
+                    dm.Nout = inter
+                elif ch == 'tf':
+                    dm.tf = [dm.tf[0] * np.exp(1j * 0.3 * np.fft.fftfreq(n1)[None, :] * 2 * np.pi)]
+                elif ch == 'obliquity':
+                    dm.obliquity = 0.8
+                log.append(f'{ch} -> Nout={tuple(dm.Nout)} upsample={dm.upsample} wfe={wfe}')
+            try:
+                dm.update(r.normal(size=dm.actuators.shape))
+                dm.render(wfe=wfe)                             # an unrelated render in between
+                a = r.normal(size=dm.actuators.shape)
+                dm.update(a)
+                s_ = dm.render(wfe=wfe).copy()
+                y = r.normal(size=s_.shape)
+                gb = dm.render_backprop(y.copy(), wfe=wfe)
+            except Exception as ex:
+                return fail(f'step {k}: raised {type(ex).__name__}: {ex}')
+            gap, lhs, rhs = adj_gap(a, y, s_, gb)
+            if gap > TOL_ADJ or np.shape(gb) != a.shape:
+                return fail(f'step {k}: <y,render(a)>={lhs:.12g} <render_backprop(y),a>={rhs:.12g} rel gap {gap:.3e}')
+        return Result(True, '; '.join(log), tag=node)
+    return Result(False, f'unknown node {node}')
+
+
 RUN = {'mdft': run_mdft, 'fixed': run_fixed, 'fpm': run_fpm, 'babinet': run_babinet, 'intensity': run_intensity,
        'phase': run_phase, 'modes': run_modes, 'softmax': run_softmax, 'activation': run_activation, 'sg': run_sg,
-       'cost': run_cost, 'dm': run_dm}
+       'cost': run_cost, 'dm': run_dm, 'history': run_history}
 
 
 # ------------------------------------------------------------------------------------------------
@@ -631,6 +820,25 @@ def gen_cases(r, item, k):
             out.append({'ifn_shape': [n0, n1], 'Nout': Nout, 'Nact': nact, 'sep': sep,
                         'shift': [[0, 0], [1.5, -2.25], [0.5, 0]][i % 3] if i % 2 else [0, 0], 'upsample': up,
                         'wfe': bool(i % 2), 'seed': seed})
+        elif item == 'history':
+            kinds = ['gumbel', 'encoder-gumbel', 'encoder-softmax', 'softmax', 'tanh', 'arctan', 'softplus', 'sigmoid',
+                     'wavefront', 'cost', 'dm']
+            node = kinds[i % len(kinds)]
+            steps = int(r.integers(1, 5))
+            d = {'node': node, 'steps': steps, 'seed': seed}
+            if node in ('gumbel', 'encoder-gumbel', 'encoder-softmax', 'softmax'):
+                K = int(r.integers(2, 5))
+                d.update({'K': K, 'taus': [float(v) for v in r.uniform(0.3, 2.5, size=4)],
+                          'levels': [sorted(float(v) for v in r.choice(np.arange(0, 12), size=K, replace=False)) for _ in range(3)],
+                          'swap_est': bool(i % 2)})
+            elif node in ('tanh', 'arctan', 'softplus', 'sigmoid'):
+                d['params'] = [[float(r.choice([1.0, 0.5, 2.5, -1.3, 1.7])), float(r.choice([0.0, 0.7, -1.2])),
+                                float(r.choice([0.0, -0.4, 2.0]))] for _ in range(4)]
+            elif node == 'dm':
+                n0 = int(r.integers(12, 17))
+                d.update({'ifn_shape': [n0, n0 + int(r.integers(0, 3))], 'shift': [[0, 0], [0.5, -1.25]][i % 2],
+                          'changes': [str(v) for v in r.permutation(['Nout+', 'Nout-', 'wfe', 'up', 'tf', 'obliquity'])]})
+            out.append(d)
     return out
 
 
@@ -704,6 +912,17 @@ def small_cases(item):
             for s in ([1, 3], [2, 2], [2, 3], [3, 4]):
                 for mk in (False, True):
                     yield {'kind': kind, 'shape': s, 'masked': mk, 'scalar_yhat': False, 'seed': 7}
+    elif item == 'history':
+        for steps in (1, 2, 3):
+            for node in ('gumbel', 'encoder-gumbel', 'encoder-softmax', 'softmax'):
+                yield {'node': node, 'steps': steps, 'seed': 7, 'K': 3, 'taus': [1.0, 0.5, 2.0, 0.7],
+                       'levels': [[0.0, 1.0, 3.0], [0.0, 2.0, 5.0], [1.0, 4.0, 6.0]], 'swap_est': steps == 3}
+            for node in ('tanh', 'arctan', 'softplus', 'sigmoid'):
+                yield {'node': node, 'steps': steps, 'seed': 7, 'params': [[1.0, 0.0, 0.0], [2.5, 0.7, -0.4], [-1.3, -1.2, 2.0], [0.5, 0.0, 1.0]]}
+            yield {'node': 'wavefront', 'steps': steps, 'seed': 7}
+            yield {'node': 'cost', 'steps': steps + 2, 'seed': 7}
+            for ch in (['Nout+', 'wfe', 'Nout-'], ['up', 'tf', 'obliquity'], ['tf', 'Nout-', 'up', 'wfe']):
+                yield {'node': 'dm', 'steps': steps, 'seed': 7, 'ifn_shape': [12, 13], 'shift': [0.5, 0], 'changes': ch}
     elif item == 'dm':
         for n in (12, 13):
             for (n1, Nout, up, sh, wfe) in ((n, [n, n], 1, [0, 0], False), (n + 1, [n + 4, n + 6], 1, [0, 0], True),
@@ -712,9 +931,9 @@ def small_cases(item):
                 yield {'ifn_shape': [n, n1], 'Nout': Nout, 'Nact': 3, 'sep': [2, 3], 'shift': sh, 'upsample': up, 'wfe': wfe, 'seed': 7}
 
 
-ITEMS = ['mdft', 'fixed', 'fpm', 'babinet', 'intensity', 'phase', 'modes', 'softmax', 'activation', 'sg', 'cost', 'dm']
+ITEMS = ['mdft', 'fixed', 'fpm', 'babinet', 'intensity', 'phase', 'modes', 'softmax', 'activation', 'sg', 'cost', 'dm', 'history']
 QUICK = {'mdft': 30, 'fixed': 40, 'fpm': 42, 'babinet': 30, 'intensity': 12, 'phase': 12, 'modes': 12, 'softmax': 48,
-         'activation': 24, 'sg': 40, 'cost': 36, 'dm': 42}
+         'activation': 24, 'sg': 40, 'cost': 36, 'dm': 42, 'history': 44}
 
 
 def _safe_run(item, p):
@@ -771,7 +990,7 @@ _HINT = {'ffs': 'fixed', 'ufs': 'fixed', 'fpm': 'fpm', 'babinet': 'babinet', 'sg
          'mse': 'cost', 'bgie': 'cost', 'nll': 'cost', 'tanh': 'activation', 'arctan': 'activation', 'softplus': 'activation',
          'sigmoid': 'activation', 'softmax': 'softmax', 'gumbel': 'softmax', 'encoder': 'softmax', 'intensity': 'intensity',
          'phase': 'phase', 'wavefront': 'intensity', 'modal': 'modes', 'structure': 'dm', 'triple': 'mdft', 'circ': 'dm',
-         'pad_crop': 'dm', 'qForSampling': 'fixed'}
+         'pad_crop': 'dm', 'qForSampling': 'fixed', 'live': 'history', 'attribute': 'history'}
 
 
 def search(ctx, hints):
